@@ -61,7 +61,8 @@ pub fn generate(rng: &mut Rng, _tier: &str) -> Scenario {
     match rng.below(10) {
         0 | 1 => {
             let n = count_ser_calls(&sc);
-            sc.fault = FaultSpec::Ser(rng.below(n.max(1) as usize) as u32);
+            let k = rng.below(n.max(1) as usize) as u32;
+            sc.fault = if rng.chance(1, 2) { FaultSpec::Ser(k) } else { FaultSpec::SerExit(k) };
         }
         2 if sc.ty.count_nodes() <= 12 => sc.fault = FaultSpec::SerEvery,
         _ => {}
@@ -94,10 +95,11 @@ pub fn execute(sc: &Scenario, verbose: bool) -> RunOut {
 
     let faults: Vec<Fault> = match &sc.fault {
         FaultSpec::None => vec![Fault::None],
-        FaultSpec::Ser(k) => vec![Fault::Ser { k: *k }, Fault::None],
+        FaultSpec::Ser(k) => vec![Fault::Ser { k: *k, exit: false }, Fault::None],
+        FaultSpec::SerExit(k) => vec![Fault::Ser { k: *k, exit: true }, Fault::None],
         FaultSpec::SerEvery => {
             let n = count_ser_calls(sc).min(64);
-            let mut v: Vec<Fault> = (0..n).map(|k| Fault::Ser { k }).collect();
+            let mut v: Vec<Fault> = (0..n).flat_map(|k| [Fault::Ser { k, exit: false }, Fault::Ser { k, exit: true }]).collect();
             v.push(Fault::None); // F-RES: the fault-free twin runs after the faulted ones
             v
         }
